@@ -30,7 +30,8 @@ CFG = dict(
                  "5": "the caller saw io.EOF although its handler had not returned nil, or before having received all the handler's messages",
                  "6": "a receive failed with something else than io.EOF on a fault-free, uncancelled stream whose handler did not fail (e.g. Canceled instead of EOF)",
                  "7": "at the end of a complete schedule an operation had never returned",
-                 "8": "an open, send or half-close failed on a stream whose handler had not returned"},
+                 "8": "an open, send or half-close failed on a stream whose handler had not returned",
+                 "9": "two stream-opening envelopes on the client's transport carry the same id"},
     rule="real goat.ClientConn - in-memory FIFO wires - real goat.Server inside synctest bubbles; caller and handler programs are data. "
          "(A) directed: the terminal Recv (or the last Send) parked at the cs.recv.checked / cs.send.checked yield point after its "
          "done-check, everything else run to completion (trailer delivered, stream torn down), then released: 3 kinds x {0,1,2} messages "
